@@ -141,7 +141,12 @@ class Slicer:
                 if key in env:
                     res.update(env[key])
                 else:
-                    res.roots.add(("upvar", body_id, first_field))
+                    # a captured variable: continue in the enclosing body at the closure's construction site
+                    r = self._resolve_root(("upvar", body_id, first_field)) if depth < self.max_depth else None
+                    if r is not None:
+                        res.update(r)
+                    else:
+                        res.roots.add(("upvar", body_id, first_field))
             else:
                 for k, v in env.items():
                     if k[0] == "upvar":
